@@ -319,6 +319,22 @@ Proof.
   - cbn [l_rc]. lia.
 Qed.
 
+(* construct1 (new_with_props): the properties byte *)
+Theorem construct1_inv input uncomp props dict preset :
+  0 <= props -> 0 <= uncomp -> preset_bytes preset ->
+  match lzma1_construct1 input uncomp props dict preset with
+  | Ok s0 => inv1 s0 /\ l_end_reached s0 = false /\ pot1 s0 <= 8000 * zlen input /\
+             (length (rd_in (l_rc s0)) <= length input)%nat
+  | Err _ => True
+  | _ => False
+  end.
+Proof.
+  intros Hp Hu Hpre. unfold lzma1_construct1. destruct (Z.ltb_spec 224 props); [exact I|]. cbv zeta.
+  destruct (DICT_SIZE_MAX <? dict); [exact I|].
+  set (pbv := props / 45). set (r := props - pbv * 45). set (lpv := r / 9). set (lcv := r - lpv * 9).
+  apply construct2_inv; try assumption; unfold lcv, lpv, r, pbv; lia.
+Qed.
+
 (* the .lzma header: props byte, dictionary size, declared size, memory limit *)
 Lemma le_value_4 d0 d1 d2 d3 : bytes_ok [d0; d1; d2; d3] = true -> 0 <= le_value [d0; d1; d2; d3] < 4294967296.
 Proof. intros H. apply (le_value_bound [d0; d1; d2; d3]) in H. exact H. Qed.
@@ -417,6 +433,36 @@ Proof.
   - right. exists e. exact Hr.
 Qed.
 
+(* the hypothesis on the cycled sizes is needed: with zero-size buffers only, a read history never
+   reaches a call that could report the end (every such read() is a no-op) *)
+Lemma read_all_zero_sizes_fuel fuel : forall s acc, lzma1_read_all fuel s [0] [0] acc = Fuel.
+Proof.
+  induction fuel as [|f IH]; intros s acc; cbn [lzma1_read_all]; [reflexivity|].
+  rewrite (lzma1_read_zero s 0 ltac:(lia)). cbn [obind]. change (0 <? 0) with false. cbn [andb rev_append]. apply IH.
+Qed.
+
+Theorem lzma1_props_total : forall input uncomp props dict preset sizes all fuel,
+  0 <= props -> 0 <= uncomp -> preset_bytes preset -> sizes_ok all ->
+  (ra_fuel sizes all (8000 * zlen input) <= fuel)%nat ->
+  match lzma1_construct1 input uncomp props dict preset with
+  | Ok s0 => total1 (lzma1_read_all fuel s0 sizes all []) (8000 * zlen input)
+  | Err _ => True
+  | _ => False
+  end.
+Proof.
+  intros input uncomp props dict preset sizes all fuel Hp Hu Hpre Hall Hfuel.
+  pose proof (construct1_inv input uncomp props dict preset Hp Hu Hpre) as HC.
+  destruct (lzma1_construct1 input uncomp props dict preset) as [s0|e|e|]; try exact HC.
+  destruct HC as (Hi & He & Hpot & _).
+  pose proof (pot1_nonneg s0 (or_intror Hi)) as Hp0.
+  destruct (lzma1_read_all_inv s0 sizes all fuel (or_intror Hi) Hall
+              ltac:(pose proof (ra_fuel_mono sizes all (pot1 s0) (8000 * zlen input) ltac:(lia)); lia))
+    as [(out & s1 & Hr & Hz)|(e & Hr)].
+  - left. exists out, s1. split; [exact Hr | lia].
+  - right. exists e. exact Hr.
+Qed.
+
 Print Assumptions read1_total.
+Print Assumptions lzma1_props_total.
 Print Assumptions lzma1_raw_total.
 Print Assumptions lzma1_hdr_total.
